@@ -67,6 +67,11 @@ S7 == [type |-> "object", required |-> <<"ro", "wo">>, pk |-> <<"n", "ro", "wo">
 S8 == [type |-> "object", required |-> <<>>, pk |-> <<"n", "o", "s">>,
        ps |-> <<TInt, [type |-> "object", required |-> <<"a">>, pk |-> <<"a", "b">>, ps |-> <<TInt, TInt>>], TStr>>]
 
+(* S9: the other primitive types (a boolean, a number that need not be integral) next to the integer *)
+TBool == [type |-> "boolean"]
+TNum  == [type |-> "number"]
+S9 == [type |-> "object", required |-> <<>>, pk |-> <<"b", "f", "n">>, ps |-> <<TBool, TNum, TInt>>]
+
 (* Schemas of a text/plain body (and of a multipart part decoded as plain text).  The value a plain-text body encodes is *)
 (* the string it carries, whatever the schema says -- in particular when the schema has NO "type" keyword (T1..T5): a   *)
 (* bare enum, length bounds, a pattern, nullable, a composition.  T6 (type: integer): the text is still a string, so    *)
@@ -98,9 +103,9 @@ Wrap(s, w) ==
      [] w = "propAnyOf"  -> [type |-> "object", pk |-> <<"in">>, ps |-> <<[anyOf |-> <<s, [type |-> "boolean"]>>]>>]
      [] OTHER -> s
 
-BaseSchemaOf(c) == IF c.family \in {"text", "octet", "zip"} THEN TextSchemaOf(c.schema) ELSE IF c.schema = "SN" THEN SN
+BaseSchemaOf(c) == IF c.family \in {"text", "octet", "zip", "csv"} THEN TextSchemaOf(c.schema) ELSE IF c.schema = "SN" THEN SN
                ELSE CASE c.schema = "S1" -> S1 [] c.schema = "S3" -> S3 [] c.schema = "S4" -> S4 [] c.schema = "S4a" -> S4a
-                      [] c.schema = "S5" -> S5 [] c.schema = "S6" -> S6 [] c.schema = "S7" -> S7 [] c.schema = "S8" -> S8 [] OTHER -> S2
+                      [] c.schema = "S5" -> S5 [] c.schema = "S6" -> S6 [] c.schema = "S7" -> S7 [] c.schema = "S8" -> S8 [] c.schema = "S9" -> S9 [] OTHER -> S2
 SchemaOf(c) == IF "wrap" \in DOMAIN c THEN Wrap(BaseSchemaOf(c), c.wrap) ELSE BaseSchemaOf(c)
 
 (* the media type a decoder family is declared under and sent as *)
